@@ -8,8 +8,8 @@
      [label, res, ref, exc, g, out, proj0, proj]   digests as strings; proj0/proj = digest of the
                                                  object's complete state before / after the step
    Any interleaving of steps of different threads is accepted (events are ordered per thread). *)
-EXTENDS Sequences, Integers, TLC, Json, IOUtils
-T == JsonDeserialize(IOEnv.TRACE_FILE)
+EXTENDS Sequences, Integers, TLC, Json, IOUtils, TraceData
+T == TraceData
 VARIABLES i, ph
 Init == i \in 1..Len(T) /\ ph = 0
 Next == ph = 0 /\ ph' = 1 /\ i' = i
